@@ -34,6 +34,7 @@ type Stage struct {
 
 type ChainPlan struct {
 	Stages []*Stage
+	Odd    bool // contains an adjacency the library is expected to refuse at build time
 }
 
 func genChain(t *kernel.Tape, g *gen) *ChainPlan {
@@ -44,7 +45,14 @@ func genChain(t *kernel.Tape, g *gen) *ChainPlan {
 		key := fmt.Sprintf("s%d", i)
 		kind := t.Plan(5)
 		if prevMulti && (kind == SParallel || kind == SBranch) {
-			kind = SLambda
+			// several "previous nodes": the library refuses to append a parallel or a branch here.
+			// Now and then the plan keeps the adjacency: the chain must either be refused or, if
+			// it is accepted, behave as the sequential composition it is.
+			if t.PlanBool(12) {
+				cp.Odd = true
+			} else {
+				kind = SLambda
+			}
 		}
 		st := &Stage{Kind: kind, Key: key}
 		mk := func(k string) *Node {
@@ -248,6 +256,10 @@ func runChain(t *kernel.Tape, opt core.Opts, prefix string) *core.Outcome {
 	b := &builder{env: env, top: &Plan{}}
 	r, err := b.compileChain(context.Background(), cp)
 	if err != nil {
+		if cp.Odd {
+			o.Stat("chain.refused_at_build", 1)
+			return o
+		}
 		o.Infra = "generated chain does not compile: " + err.Error() + " :: " + o.Sample
 		return o
 	}
